@@ -150,7 +150,9 @@ REJECTS = [2, -1, 0.5, "012", "2", "0a1", "1;0", "10;01", [[0, 1], [1, 0]], np.z
            # elements that are "almost" 0 or 1, or that satisfy an arithmetic identity of {0,1} without being 0 or 1
            [0, 1e-20], [1, -1e-300], np.array([5e-324, 1.0]), np.array([1e-9, 0], dtype=np.float32), np.array([1e-5, 1], dtype=np.float16), [1 - 1e-16, 0], [1 + 2.3e-16, 1],
            [0.5 + 0.5j, 0], np.array([0.5 - 0.5j]), [1j, 1], [-0.0 + 1e-30j, 1], np.array([np.inf, 0]), [True, 2], np.array([255, 1], dtype=np.uint8), np.array([256, 1]), np.array([-256, 0]),
-           np.array([2 ** 32, 1]), np.array([2 ** 32 + 1, 0]), "٠١", "1e0 0", [1.0000001, 0]]
+           np.array([2 ** 32, 1]), np.array([2 ** 32 + 1, 0]), "٠١", "1e0 0", [1.0000001, 0],
+           # more than one dimension, even if it holds a single element
+           [[1]], ((0,),), [[[True]]], np.ones((1, 1)), np.zeros((1, 1, 1), dtype=np.uint8), np.array([[1]], dtype=bool), [[0], [1]], [[1, 0]]]
 
 
 def w_rejects(ctx, rng, i):
